@@ -655,6 +655,19 @@ def addRule (pinned : Bool) (m : Mapping) (r : Rule) : Mapping :=
 /-- the mapping a list of rules builds, in order -/
 def buildMapping (pinned : Bool) (rules : List Rule) : Mapping := rules.foldl (addRule pinned) {}
 
+/-- an operation on a live `Mapping` object: `add` a rule, or `merge` another mapping in (what
+`Manifest.remapEntries(mapping=M)` does with the rules of the `manifest.remap` files) -/
+inductive MapOp
+  | add (r : Rule) (overwrite : Bool)
+  | merge (o : Mapping) (overwrite : Bool)
+
+def MapOp.run (m : Mapping) : MapOp → Mapping
+  | .add r ow => m.add r.inP r.inV r.outP r.outV r.flavor ow
+  | .merge o ow => m.merge o ow
+
+/-- the mapping after a sequence of operations -/
+def runOps (ops : List MapOp) (m : Mapping) : Mapping := ops.foldl MapOp.run m
+
 theorem addP_map (pinned : Bool) (m : Mapping) (inP inV : Str) (outP outV : Option Str) (fl : Str) (ow : Bool) :
     (m.addP pinned inP inV outP outV fl ow).map = m.map ∨
       (m.addP pinned inP inV outP outV fl ow).map =
